@@ -23,6 +23,7 @@ type Acct struct {
 	Recover  []string
 	Verify   []string
 	Phone    string
+	Email    string   // contact address when it differs from the login identifier ("" = same)
 	Cookies  []string // remember cookies issued, latest last
 	Exists   bool
 }
@@ -228,7 +229,7 @@ func (g *Gen) recCodeFor(a *Acct) string {
 func (g *Gen) harvest(a *Acct, r *world.Result) {
 	for _, ml := range r.NewMail {
 		for _, acc := range g.Accts {
-			if len(ml.To) > 0 && ml.To[0] == acc.PID {
+			if len(ml.To) > 0 && (ml.To[0] == acc.PID && acc.Email == "" || acc.Email != "" && ml.To[0] == acc.Email) {
 				switch ml.Kind {
 				case "confirm":
 					acc.Confirm = append(acc.Confirm, ml.Token)
@@ -317,6 +318,17 @@ func (g *Gen) Step() {
 			args.PID = "not-an-email"
 		case 3:
 			args.Extra = map[string]string{"name": "X", "confirmed": "true", "password": "zzz"}
+		case 4:
+			// spellings of the one whitelisted field name
+			args.Extra = map[string]string{"EMAIL": "admin@x.com", "Email": "root@x.com", "eMail": "x@y.zz"}
+		case 5:
+			args.NoPW = true
+			args.PW = ""
+			if g.R.Intn(2) == 0 {
+				args.NoPW2 = true
+			} else {
+				args.PW2 = ""
+			}
 		}
 		existed := m.W.Store.Users[args.PID] != nil
 		r = m.HTTP(b, "register", args, g.fault())
@@ -640,7 +652,16 @@ func (g *Gen) SeedAccounts() {
 		case 1: // one failure short of the threshold
 			attempts, hasLast = g.M.Cfg.LockAfter-1, true
 		}
-		g.M.SeedUser(a.PID, pw, confirmed, attempts, lastT, lockedT, hasLast, hasLocked, otps, totpS, sms, rec)
+		email := a.PID
+		if g.R.Intn(3) == 0 {
+			// the contact address is not the login identifier (changed after sign-up)
+			a.Email = "contact." + a.PID
+			email = a.Email
+		}
+		if g.R.Intn(8) == 0 {
+			pw = "" // an account without a password (created through OAuth2 / by an administrator)
+		}
+		g.M.SeedUserE(a.PID, email, pw, confirmed, attempts, lastT, lockedT, hasLast, hasLocked, otps, totpS, sms, rec)
 		a.Exists, a.PW, a.OTPs, a.RecCodes = true, pw, append([]string{}, otps...), append([]string{}, rec...)
 	}
 }
